@@ -1,3 +1,4 @@
+import Harper.Driver.Rules
 import Harper.Driver.Markdown
 import Harper.Driver.Condense
 import Harper.Driver.Server
@@ -97,7 +98,10 @@ def handlers : List (String × (List String → String)) := [
   ("wikiclean", Markdown.handleWikiClean),
   ("collapse", Markdown.handleCollapse),
   ("isolate", Markdown.handleIsolate),
-  ("isolatev", Markdown.handleIsolateV)
+  ("isolatev", Markdown.handleIsolateV),
+  ("rule", Rules.handleRule),
+  ("rulemo", Rules.handleRuleMo),
+  ("ruletoks", Rules.handleRuleToks)
 ]
 
 def handle (line : String) : String :=
